@@ -11,14 +11,15 @@ from . import prog_common as PC
 from . import c01
 
 ANCHORS = PC.ANCHORS + ['recreate_variables']
-WITNESSES = {'all': ['has-answers', 'several-answers', 'names-coincide-across-clauses', 'names-all-different', 'writes-output']}
+WITNESSES = {'all': ['has-answers', 'several-answers', 'names-coincide-across-clauses', 'names-all-different', 'writes-output', 'from-source-text']}
 OPTS = {'quick': {'selfcheck_mod': 8, 'budget_s': 280, 'max_paths_per_case': 4000}, 'thorough': {'selfcheck_mod': 600, 'budget_s': 3000, 'max_paths_per_case': 20000}}
 STEP_LIMIT = 3_000_000
 BOUNDS = {
     'quick': '16 hand-written bodies (conjunction, disjunction, not, cut, arithmetic, print of a bound variable, list patterns, helper rules u/2 and w/1 with their own variables) plus the 136 '
              'one- and two-goal bodies of the C01 menu, rule t(V1) :- BODY, queries t(Q) and t(b); every variable of every clause and of the query is named "$" + c (+ a suffix `_1`, `_2`, `2` in a second naming pattern) with c a solver variable over {X, Y, Z, W}, '
              'constrained only to be injective within its clause: the solver enumerates every coincidence pattern of names across clauses and with the query (capture, all-same, all-different); '
-             'answers (up to renaming of unbound variables) and output must equal those of the same program with fixed distinct names, run in the same path',
+             'answers (up to renaming of unbound variables) and output must equal those of the same program with fixed distinct names, run in the same path; the 20 hand-written programs '
+             'also go through parse_rule / parse_query as source text under 5 concrete naming schemes (non-ASCII letters, `_1` suffixes, lower case, names that are prefixes of each other, the same names reused in every clause)',
     'thorough': 'all three-goal bodies of the C01 menu as well',
 }
 OUTSIDE = 'printing unbound variables (their text contains the name); solve_all strings (they show the query\'s own variable names)'
@@ -60,6 +61,10 @@ def cases(tier, seed):
             q = C('t', Q1) if qk == 'var' else C('t', A('b'))
             for pat in ((0, 1) if i < len(BODIES) else (0,)) if qk == 'var' else (1,):
                 out.append({'id': 'program %d: %s ?- %s [names %d]' % (i, P.gtext(b), P.ttext(q), pat), 'body': i, 'q': qk, 'tier': tier, 'pat': pat})
+    # the same programs as source text, parsed by parse_rule / parse_query, under several concrete naming schemes
+    for i, b in enumerate(BODIES):
+        for si in range(1, len(SCHEMES)):
+            out.append({'id': 'text program %d under names %s' % (i, SCHEMES[si][:3]), 'fam': 'text', 'body': i, 'scheme': si, 'tier': tier})
     return out
 
 
@@ -90,12 +95,72 @@ def name_clause(m, clause, tag, sfx=None):
     return go(clause), {k: v[0] for k, v in names.items()}
 
 
+SCHEMES = [['$A1', '$A2', '$A3', '$A4', '$A5', '$Q1'], ['$Gr\u00f6\u00dfe', '$Zo\u00e9', '$A\u00f1o', '$\u00c9t\u00e9', '$\u00dcber', '$\u00d8re'], ['$X_1', '$X_2', '$X_3', '$X_4', '$X_5', '$X_6'],
+           ['$a', '$b', '$c', '$d', '$e', '$q'], ['$Value2', '$Value22', '$V', '$VV', '$VVV', '$Value'], ['$X', '$Y', '$X', '$Y', '$Z', '$X']]
+
+
+def rename_text(clause, scheme):
+    """placeholder variables $A1..$A5, $Q1 -> the scheme's names (the last scheme reuses names across clauses: legal, scopes are per clause)"""
+    names = dict(zip(SCHEMES[0], SCHEMES[scheme]))
+    def go(t):
+        if isinstance(t, tuple):
+            if t and t[0] == 'var': return ('var', 0, names[t[2]])
+            return tuple(go(x) for x in t)
+        return t
+    return go(clause)
+
+
+def run_text(drv, case):
+    m = drv.m
+    body = all_bodies(case.get('tier', 'quick'))[case['body']]
+    test = [(C('t', A1), body)] + HELP
+    query = C('t', Q1)
+    syms = {}
+    base = [P.inst(m, c, syms) for c in PC.needed_base(test)]
+    desc = case['id']
+    try:
+        P.ref_search(m, base + test, query, 8)
+    except S.Outside:
+        return {'tags': ['outside-claim'], 'nontrivial': False}
+    def run_scheme(si):
+        rules = [drv.rule(drv.term(h), None if b is None else drv.goal(b)) for h, b in base]
+        for cl in test:
+            text = P.ctext(rename_text(cl, si))
+            r, res = drv.parse('rule', text)
+            if res[0] != 'ok': raise Violation('text-rejected', '%s: parse_rule rejects %r' % (desc, text))
+            rules.append(r)
+        kb = drv.kb(rules)
+        q, res = drv.parse('query', P.ttext(rename_text(query, si)))
+        if res[0] != 'ok': raise Violation('text-rejected', '%s: parse_query rejects the query' % desc)
+        node = drv.base(q, kb)
+        answers, outs = [], []
+        for i in range(9):
+            r = drv.next(node); outs.append(drv.outs[-1])
+            if r.h is None: break
+            answers.append(drv.answer(q, r))
+        return answers, outs
+    try:
+        a0, o0 = run_scheme(0)
+        a1, o1 = run_scheme(case['scheme'])
+    except ScenarioEnd as e:
+        raise Violation('search-%s' % e.why[0], '%s: %s' % (desc, e.why[1][:200]))
+    if len(a0) != len(a1):
+        raise Violation('naming-changes-number-of-answers', '%s: %d answers with the plain names, %d with %s' % (desc, len(a0), len(a1), SCHEMES[case['scheme']]))
+    for i, (x, y) in enumerate(zip(a0, a1)):
+        if not R.alpha_eq(m, strip_names(R.abst(x)), strip_names(R.abst(y)), {}, {}):
+            raise Violation('naming-changes-answer', '%s: answer %d is %s with the plain names and %s with %s' % (desc, i + 1, R.show(R.abst(x)), R.show(R.abst(y)), SCHEMES[case['scheme']]))
+    if o0 != o1:
+        raise Violation('naming-changes-output', '%s: output %r vs %r' % (desc, o0, o1))
+    return {'tags': ['from-source-text'] + (['has-answers'] if a0 else []), 'note': desc}
+
+
 def search(drv, clauses, query):
     kb = P.build_kb(drv, clauses)
     return P.impl_search(drv, kb, query, 8, 0)
 
 
 def run(drv, case):
+    if case.get('fam') == 'text': return run_text(drv, case)
     m = drv.m
     body = all_bodies(case.get('tier', 'quick'))[case['body']]
     test = [(C('t', A1), body)] + HELP
